@@ -18,7 +18,7 @@ META = {
              "realisations with the log-density compared after every step against a closed-form oracle of the original factors. "
              "Recorded lineages (replays, the repository's tests, and every conditional factor of every graph used stand-alone: staged "
              "conditioning on all subsets of its parents, complete / missing / misnamed / surplus / re-fixed keyword sets) are "
-             "validated against TraceJointCond.tla."),
+             "validated against TraceJointCond.tla. A reduced joint re-used as a factor of a second joint is compared with the same oracle."),
     "note": ("Families and callables of the realisations are fixed recipes (jointgraphs.py); dims 1-3; values on a half-integer "
              "lattice; rtol 1e-9. Result classes are logged for coverage, not asserted."),
     "technique": "TLA+ spec (JointCond) model-checked with TLC; every TLC-generated conditioning behaviour replayed into JointDistribution with a closed-form oracle",
@@ -388,6 +388,53 @@ def factor_lineages(ctx, graphs, realisations):
     return traces
 
 
+def rejoin_facet(ctx, graphs, realisations):
+    """Staged conditioning ACROSS joints: a joint of two factors reduced (by fixing one of its variables) to a single density of the
+    other variable is used as a FACTOR of a second joint together with the remaining factor.  The second joint - evaluated, and
+    conditioned on the third variable - is still the sum of the three original factors at the accumulated assignment (the constant
+    carried by the reduced object must survive being a prior)."""
+    import cuqi
+    import itertools
+    from cuqiverif import jointgraphs as jg
+    from cuqiverif.zoo import quiet
+    for par in graphs:
+        if len(par) != 3:
+            continue
+        for v, u, w in itertools.permutations((1, 2, 3)):
+            P = {i + 1: set(par[i]) for i in range(3)}
+            if not (P[v] <= {u} and P[u] <= {v} and P[w] <= {v} and (P[v] or P[u]) and P[w]):
+                continue
+            for r in realisations:
+                R = jg.Realisation(par, r)
+                case = {"kind": "rejoin", "par": par, "r": r, "v": v, "u": u, "w": w}
+                ctx.case(("rejoin", str(par), r, v, u, w))
+                vals = R.completion(2)
+                exp = R.total(vals)
+                sig = "rejoin/r%d" % r
+                try:
+                    with quiet():
+                        f = {i: R.factors[i].build() for i in (1, 2, 3)}
+                        reduced = cuqi.distribution.JointDistribution(f[v], f[u])(**{jg.name(u): vals[u]})
+                        J2 = cuqi.distribution.JointDistribution(f[w], reduced)
+                        got = J2.logd(**{jg.name(v): vals[v], jg.name(w): vals[w]})
+                        post = J2(**{jg.name(w): vals[w]})
+                        got2 = post.logd(**{jg.name(v): vals[v]})
+                        got3 = post.logd(vals[v])
+                except Exception as ex:
+                    ctx.observations["rejoin_refused"] = ctx.observations.get("rejoin_refused", 0) + 1
+                    ctx.observations["rejoin_refused_example"] = "%s: %s" % (type(ex).__name__, str(ex)[:100])
+                    continue
+                ctx.facets["rejoin/" + type(reduced).__name__ + "/" + type(post).__name__] = ctx.facets.get(
+                    "rejoin/" + type(reduced).__name__ + "/" + type(post).__name__, 0) + 1
+                for tag, g in (("joint_logd", got), ("conditioned_kw", got2), ("conditioned_pos", got3)):
+                    if not _close(g, exp):
+                        ctx.mismatch(sig + "/" + tag + "/" + type(post).__name__, case,
+                                     "a reduced joint used as a factor of a second joint: the log-density is not the sum of the original factors", exp, g)
+                        break
+                else:
+                    ctx.traces += 1
+
+
 def run(ctx):
     from cuqiverif.core import MachineryError
     warnings.filterwarnings("ignore")
@@ -440,6 +487,9 @@ def run(ctx):
     if not ft:
         raise MachineryError("no stand-alone conditional factor was exercised")
     okf = validate_lineages(ctx, ft, "standalone-factors")
+    rejoin_facet(ctx, [json.loads(g) for g in graphs], (0, 1, 2))
+    if not any(k.startswith("rejoin/") for k in ctx.facets):
+        raise MachineryError("vacuous: no reduced joint could be used as a factor of a second joint")
     for need_call in ("complete", "complete_reversed", "missing", "misnamed", "surplus", "refixed", "positional", "positional_toomany"):
         if not ctx.facets.get("factor_call/" + need_call):
             raise MachineryError("vacuous stand-alone factor facet: no %s call" % need_call)
